@@ -43,6 +43,25 @@ T = {
  "C17-r2-signature-length-window": ("C17", "a valid DER signature shorter than 70 bytes (r or s below 2^247)", "caught as written (signatures by arbitrary keys over the digest; short ones occur)"),
  "C18-r2-askpin-drops-retry": ("C18", "PIN typed at the prompt, first entry rejected, second valid: the first entry is what reaches the device", "caught as written (typed-bad-then-valid input class)"),
  "C19-r2-dict-by-hash-collapses": ("C19", "two images with identical data areas in one one-time signing run (table keyed by hash)", "caught as written (shrunk / small images coincide; the set of written files is compared)"),
+ "C01-r3-segwit-skips-unsigning": ("C01", "segwit-mode authorized sign whose transaction has an input with a non-empty non-final script operation (unsigning skipped in segwit mode)", "caught as written"),
+ "C02-r3-rstrip-hardening-quotes": ("C02", "key id with a doubled hardening quote such as m/44''/0'/0'/0/0 (rstrip instead of one-character slice)", "caught as written (string pool has m/0'/0''/0/0/0; single-mutation enumeration)"),
+ "C03-r3-struct-error-escapes": ("C03", "header with a non-merge-mining payload of 65536 bytes or more (struct.error is not an OverflowError)", "caught as written (oversize blocks; the fix-6 regression replays fail too)"),
+ "C04-r3-except-exception-drops-write-error": ("C04", "a write-side link failure (bare BaseException) at any exchange", "caught as written (write outcome at every step), also by C11"),
+ "C05-r3-partial-after-brother": ("C05", "device reports partial success right after consuming the last brother of the last block", "caught as written (final partial with brothers asked on the last block), also by C04's success-opcode cells"),
+ "C06-r3-root-certifier-skips-tweak": ("C06", "element signed by the root that declares a tweak", "caught as written (tweaks on any element)"),
+ "C07-r3-naive-local-time-as-utc": ("C07", "verification host not on UTC and a certificate that expired / starts within the UTC offset (naive local time labelled UTC)", "MISSED at first (the fake clock behaved like a UTC host); caught after the clock got a host UTC offset as a case dimension and windows within one hour of the boundary"),
+ "C08-r3-message-sliced-to-length": ("C08", "current-format powHSM message with trailing bytes (sliced to the expected length before the comparison)", "caught as written (msg-extended variant, Ledger and SGX)"),
+ "C09-r3-supports-drops-minor-clause": ("C09", "firmware with a newer minor and patch 0 or 1 (5.5.0, 5.5.1, ...)", "caught as written (3x3x3 version grid)"),
+ "C10-r3-isvalid-length-as-anypin": ("C10", "first candidate drawn by the PIN generator is all digits (length passed where any_pin is expected)", "caught as written (generator under a harness-controlled random source)"),
+ "C11-r3-v1-flag-on-wrong-object": ("C11", "legacy mode sign hit by a write/read error (flag set on the v1 object)", "caught as written"),
+ "C12-r3-shared-handler-stale-reply": ("C12", "a request that ends on a path where the manager stops (protocol interrupt on reconnection, or an unexpected exception) is answered with the previous client's reply (handler object and its reply shared between connections)", "MISSED at first (all scheduled requests end normally; the only in-protocol stop path leaks a bare error code, which is indistinguishable from an own reply); caught after adding the 'stop-path' stage, which also uses one out-of-protocol device answer (truncated heartbeat signature) to reach the generic exception path - same oracle, wider domain than the property's quantifier"),
+ "C13-r3-difficulty-strip-both-ends": ("C13", "total difficulty whose least significant byte is zero (strip instead of lstrip)", "caught as written (difficulty pool has 256, 2^287 and random 1..36-byte values)"),
+ "C14-r3-skip-rebuild-when-nothing-to-clear": ("C14", "input whose non-final operations are all empty and whose last push is not minimally encoded, or placeholders written as 4c00", "caught as written (pair relation and canonical-form oracle)"),
+ "C15-r3-ui-page-limit-off-by-one": ("C15", "UI attestation message delivered in exactly 4 pages", "caught as written (page size 28 gives 4 pages)"),
+ "C16-r3-validation-walk-ends-elsewhere": ("C16", "version-2 document with an element named sgx_root that is self-signed or leads back to itself", "caught as written (sgx_root in the name pool since round 1; watchdog on validation)"),
+ "C17-r3-signed-short-iteration": ("C17", "iteration in 32768..65535 (struct format h instead of H)", "caught as written (65535 and random iterations)"),
+ "C18-r3-yes-substring": ("C18", "empty line, y, e, s, ye or es at the confirmation prompt (substring test)", "caught as written (y-then-no and empty-then-no answers)"),
+ "C19-r3-pubkey-short-coordinates": ("C19", "generated key whose public point has a coordinate below 2^248 (about 1 run in 128)", "caught as written (enough signing runs per check; public key file must be 65 bytes)"),
 }
 
 
